@@ -848,6 +848,12 @@ class Builder:
                 self.stores["!effects"] = app("seq", self.stores.get("!effects", sym("!effects")), app("inplace_op", type(st.op).__name__, cur_, rhs_))
             self.assign(st.target, v)
         elif isinstance(st, ast.Expr):
+            if isinstance(st.value, (ast.Yield, ast.YieldFrom)) and self.track_effects:
+                # what a generator function yields is its output: an ordered effect
+                yv = self.t(st.value.value) if st.value.value is not None else app("const", "None")
+                yv = yv if isinstance(yv, Rat) else (app("tuple", *yv) if isinstance(yv, tuple) else app("const", str(yv)))
+                self.stores["!effects"] = app("seq", self.stores.get("!effects", sym("!effects")), app("yield", yv))
+                self._epoch += 1
             if isinstance(st.value, ast.Call):
                 c = st.value
                 if self.erase_persistence and isinstance(c.func, ast.Attribute) and len(c.args) >= 2:
@@ -955,6 +961,10 @@ class Builder:
                 d = dotted(base)
                 if d is not None:
                     (stored if "." in d else assigned).add(d)
+        # what the loop-carried names hold when the loop is entered is part of what the loop computes
+        carried = tuple((v, self.env[v] if isinstance(self.env[v], Rat) else app("tuple", *self.env[v]) if isinstance(self.env[v], tuple) else app("const", str(self.env[v])))
+                        for v in sorted(assigned) if v in self.env)
+        carried += tuple((k, self.stores[k]) for k in sorted(stored) if k in self.stores and isinstance(self.stores[k], Rat))
         child = self.child(dict(self.env))
         for v in assigned:
             child.env[v] = sym(v + "@iter")
@@ -970,7 +980,7 @@ class Builder:
 
         def wrap(name, v):
             v = v if isinstance(v, Rat) else (app("tuple", *v) if isinstance(v, tuple) else app("const", str(v)))
-            return app("loop", head, app("const", name), v, ret)
+            return app("loop", head, app("const", name), v, ret, carried)
         for v in sorted(assigned):
             if v in child.env:
                 self.env[v] = wrap(v, child.env[v])
@@ -1013,7 +1023,13 @@ class Builder:
             d = dotted(tgt.value)
             if d is not None:
                 old = self.t(tgt.value)
-                nv = app("setitem", old, self._slice(tgt.slice), v)
+                idx_t = self.t(tgt.slice) if not isinstance(tgt.slice, (ast.Slice, ast.Tuple)) else None
+                idx_at = idx_t.as_atom() if isinstance(idx_t, Rat) else None
+                if idx_at is not None and (idx_at.op in nf.BOOL_OPS or idx_at.uid in nf.BOOLEAN_ATOMS) and isinstance(old, Rat) and isinstance(v, Rat):
+                    # `x[mask] = v` with a boolean mask over all of x is `x = where(mask, v, x)`
+                    nv = self._builtin("where", False, [idx_t, v, old], {}, None)
+                else:
+                    nv = app("setitem", old, self._slice(tgt.slice), v)
                 self.env[d] = nv
                 if "." in d:
                     self.stores[d] = nv
